@@ -94,28 +94,8 @@ C15_MIXED(R_bgr_rgbacc_bgr, "bgr8-rgbacc-bgr32f", gil::bgr8_image_t, gil::rgb_la
 C15_MIXED(R_rgba_abgr, "rgba8-to-abgr32f", gil::rgba8_image_t, gil::rgba_layout_t, gil::abgr32f_pixel_t)
 C15_MIXED(R_planar_bgr, "rgb8planar-to-bgr32f", gil::rgb8_planar_image_t, gil::rgb_layout_t, gil::bgr32f_pixel_t)
 
-// position in memory (operator[] index) of every colour of pixel type P, in the order of P's colour space
-template <class P, int K> struct sem_fill {
-    static void go(P& p) { gil::semantic_at_c<K>(p) = typename gil::channel_type<P>::type((typename gil::channel_traits<typename gil::channel_type<P>::type>::value_type)(K + 1)); sem_fill<P, K - 1>::go(p); }
-};
-template <class P> struct sem_fill<P, -1> { static void go(P&) {} };
-template <class P> std::vector<int> phys_of_colour() {
-    const int NC = gil::num_channels<P>::value;
-    P p;
-    sem_fill<P, NC - 1>::go(p);
-    std::vector<int> m((size_t)NC, -1);
-    for (int c = 0; c < NC; ++c) m[(size_t)((int)cu::num(p[c]) - 1)] = c;
-    return m;
-}
-// channel values of a view in raster order (works for planar views too): used to detect a modified source
-template <class View> std::vector<double> values_of(View const& v) {
-    std::vector<double> out;
-    const int NC = gil::num_channels<View>::value;
-    for (int y = 0; y < v.height(); ++y)
-        for (int x = 0; x < v.width(); ++x)
-            for (int c = 0; c < NC; ++c) out.push_back(cu::num(v(x, y)[c]));
-    return out;
-}
+using cu::phys_of_colour;
+using cu::values_of;
 
 template <class Image> void fill_src(Image& img, vh::rng& r, double (*gen)(vh::rng&)) {
     typedef typename Image::value_type P;
